@@ -40,6 +40,17 @@ Definition dec_entry (v : val) : stage * outcome :=
   | VL [VN k; VN m; VN i; VN o] => (dec_stage k m i, dec_outcome o)
   | _ => (Quit, R2)
   end.
+Definition dec_esc (n : N) : esc := match n with 0 => ENone | 2 => E2 | 4 => E4 | 5 => E5 | _ => ENone end.
+Fixpoint esc_fun (l : list (stage * esc)) (s : stage) : esc :=
+  match l with
+  | [] => ENone
+  | (k, e) :: l' => if stage_eqb k s then e else esc_fun l' s
+  end.
+Definition dec_esc_entry (v : val) : stage * esc :=
+  match v with
+  | VL [VN k; VN m; VN i; VN e] => (dec_stage k m i, dec_esc e)
+  | _ => (Quit, ENone)
+  end.
 Definition dec_exts (v : val) : exts :=
   match v with
   | VL [a; b; c; d] => mkExts (get_bool a) (get_bool b) (get_bool c) (get_bool d)
@@ -72,9 +83,9 @@ Fixpoint seqN (k : nat) (from : N) : list N :=
    -> [results per message; commands seen by the server] *)
 Definition e_smtp (v : val) : val :=
   match v with
-  | VL [VN proto; VL [ti; tr; cr; ru]; VN conn; VL [x1; x2]; VL msgs; VL entries] =>
+  | VL [VN proto; VL [ti; tr; cr; ru]; VN conn; VL [x1; x2]; VL msgs; VL entries; VL escs] =>
       let cfg := mkConfig (negb (proto =? 0)) (get_bool ti) (get_bool tr) (get_bool cr) (get_bool ru) (dec_conn conn) in
-      let sc := mkScript (script_fun (map dec_entry entries)) (dec_exts x1) (dec_exts x2) in
+      let sc := mkScript (script_fun (map dec_entry entries)) (esc_fun (map dec_esc_entry escs)) (dec_exts x1) (dec_exts x2) in
       let ms := map dec_msg msgs in
       let s := run_client sc cfg ms in
       VL [VL (map (fun m => enc_mres (lookup_res (results s) m)) (seqN (List.length ms) 0));
@@ -106,7 +117,7 @@ Definition e_perm_pattern (v : val) : val := vbool (perm_pattern (get_b v)).
 Definition e_http (v : val) : val :=
   let d := match v with
            | VL [VN 0] => HRefused | VL [VN 1] => HSilent | VL [VN 2] => HBroken
-           | VL [VN 3; VN status; VL [VN c; hc]] => HResp status (HCode c (get_bool hc))
+           | VL [VN 3; VN status; VL [VN c; hc; VN e]] => HResp status (HCode c (get_bool hc) (dec_esc e))
            | VL [VN 3; VN status; _] => HResp status HNone
            | _ => HBroken
            end in
@@ -136,6 +147,23 @@ Definition e_mx (v : val) : val :=
   | _ => verr
   end.
 
+(* one MxSmtpRelay object: [[domain opt; now; mx answer; a answer; ttl; attempts] ...]
+   -> [[outcome; resolver asked] ...] *)
+Definition dec_step (v : val) : mx_step :=
+  match v with
+  | VL [dom; VN now; mx; a; VN ttl; VN attempts] =>
+      mkMxStep (match dom with VL [VN d] => Some d | _ => None end) now
+               (dec_dns dec_mxrec mx) (dec_dns (fun _ => tt) a) ttl attempts
+  | _ => mkMxStep None 0 DnsFail DnsFail 0 0
+  end.
+Definition e_mxseq (v : val) : val :=
+  VL (map (fun oq => VL [match fst oq with
+                         | MxPerm => VL [VN 0] | MxTrans => VL [VN 1]
+                         | MxRelay DDomain => VL [VN 2; VL []] | MxRelay (DHost h) => VL [VN 2; VL [VN h]]
+                         end; vbool (snd oq)])
+          (mx_run [] (map dec_step (get_l v)))).
+
 Definition entries : list entry :=
   [("c11_smtp"%string, e_smtp); ("c11_pipe"%string, e_pipe); ("c11_u8r"%string, e_u8r);
-   ("c11_perm_pattern"%string, e_perm_pattern); ("c11_http"%string, e_http); ("c11_mx"%string, e_mx)].
+   ("c11_perm_pattern"%string, e_perm_pattern); ("c11_http"%string, e_http); ("c11_mx"%string, e_mx);
+   ("c11_mxseq"%string, e_mxseq)].
